@@ -1,3 +1,4 @@
+\* necessity: children of a split-off inner node one slot too far - the invariants must fail
 \* every tree reachable over 9 keys with 2 separators per node (three levels), every insertion and removal from it
 CONSTANTS
   ORDER = 2
@@ -5,7 +6,7 @@ CONSTANTS
   KeepHist = FALSE
   GrowLen = 0
   AscSizes = {}
-  Mut = {}
+  Mut = {"split_child_offset"}
   BatchPct = 0
   GenLen = 0
 SPECIFICATION Spec
